@@ -343,4 +343,117 @@ theorem BD_expand {s : Sys} (c v w : Nat) (f : Bool) (h : BD s) (hnf : (expand s
         simp only at hlt
         omega
 
+/-! ### the other operations -/
+
+theorem BD_modflag {s : Sys} (h : BD s) (b : Bool) : BD { s with modflag := b } := BD_cnsts h rfl
+theorem BD_setV {s : Sys} (h : BD s) (v : Nat) (x : Var) : BD (s.setV v x) := BD_cnsts h rfl
+
+theorem BD_freeTail {s : Sys} (c : Nat) (h : BD s) (hnf : (freeTail s c).failed = false) : BD (freeTail s c) := by
+  unfold freeTail at hnf ⊢
+  split
+  · exact BD_cnsts h rfl
+  · rename_i hc; simp only [hc] at hnf; exact BD_onDisabledVar c h hnf
+
+theorem BD_freeElem {s : Sys} (c v i : Nat) (h : BD s) (hnf : (freeElem s c v i).failed = false) : BD (freeElem s c v i) := by
+  rcases freeElem_inv s c v i hnf with ⟨_, e, _, _, heq⟩ | ⟨_, _, e, _, heq⟩
+  · rw [heq] at hnf ⊢
+    apply BD_freeTail c _ hnf
+    apply BD_setC h
+    intro lim hl
+    have := h c lim hl
+    simp only [Cnst.freedEn]
+    omega
+  · rw [heq] at hnf ⊢
+    apply BD_freeTail c _ hnf
+    exact BD_setC h c _ (fun lim hl => h c lim hl)
+
+theorem BD_varFree {s : Sys} (v : Nat) (h : BD s) (hnf : (varFree s v).failed = false) : BD (varFree s v) := by
+  unfold varFree at hnf ⊢
+  simp only at hnf ⊢
+  have hnf2 : (forElems freeElem v 0 ((umcsFromVar { s with varset := s.varset.erase v, modflag := true } v).vars v).cn
+      (umcsFromVar { s with varset := s.varset.erase v, modflag := true } v)).failed = false := hnf
+  have := forElems_ind0 (f := freeElem) v _ (fun _ st => BD st) freeElem_sticky
+    (fun st c i _ hq hn => BD_freeElem c v i hq hn) _
+    (BD_markOnly (BD_cnsts (s' := { s with varset := s.varset.erase v, modflag := true }) h rfl) (umcsFromVar_markOnly _ _)) hnf2
+  exact BD_cnsts this rfl
+
+theorem BD_updatePenalty {s : Sys} (v p : Nat) (h : BD s) (hnf : (updatePenalty s v p).failed = false) :
+    BD (updatePenalty s v p) := by
+  unfold updatePenalty at hnf ⊢
+  simp only at hnf ⊢
+  have h0 : BD { s with modflag := true } := BD_cnsts h rfl
+  split
+  · exact h
+  · rename_i hne
+    rw [if_neg hne] at hnf
+    split
+    · rename_i hc
+      rw [if_pos hc] at hnf
+      split
+      · exact BD_cnsts h rfl
+      · rename_i hms
+        rw [if_neg hms] at hnf
+        exact BD_enableVar v (BD_cnsts h rfl) hnf
+    · rename_i hc
+      rw [if_neg hc] at hnf
+      split
+      · rename_i hc2
+        rw [if_pos hc2] at hnf
+        split
+        · rename_i hfix
+          rw [if_pos hfix] at hnf
+          have hnf1 := foldl_sticky onDisabledVar_sticky _ _ hnf
+          exact BD_foldl_onDisabledVar _ _ (BD_disableVar v h0 hnf1) hnf
+        · rename_i hfix
+          rw [if_neg hfix] at hnf
+          exact BD_disableVar v h0 hnf
+      · exact BD_markOnly (BD_setV (BD_modflag h true) v _) (umcsFromVar_markOnly _ _)
+
+theorem BD_step {s : Sys} (op : Op) (h : BD s) (hnf : (step s op).failed = false) : BD (step s op) := by
+  unfold step at hnf ⊢
+  split
+  · exact h
+  · rename_i hv
+    simp only [hv] at hnf
+    cases op with
+    | cnew b l p =>
+      show BD (cnew s b l p)
+      unfold cnew
+      refine BD_cnsts (s := s.setC s.nc _) ?_ rfl
+      apply BD_setC h
+      intro lim _; exact Nat.zero_le _
+    | vnew p b => exact BD_cnsts (s' := vnew s p b) h rfl
+    | expand c v w f => exact BD_expand c v w f h hnf
+    | vfree v => exact BD_varFree v h hnf
+    | vbound v b =>
+      show BD (updateVarBound s v b)
+      unfold updateVarBound
+      exact BD_markOnly (BD_setV (BD_modflag h true) v _) (foldl_umcs_markOnly _ _)
+    | vpen v p => exact BD_updatePenalty v p h hnf
+    | cbound c b =>
+      show BD (updateCnstBound s c b)
+      unfold updateCnstBound
+      simp only
+      have h1 : BD (umcs { s with modflag := true } c) := BD_markOnly (BD_modflag h true) (umcs_markOnly _ _)
+      exact BD_setC h1 c _ (fun lim hl => h1 c lim hl)
+    | solve =>
+      show BD (solveOp s)
+      unfold solveOp
+      split
+      · exact h
+      · simp only
+        split
+        · unfold removeAllModified
+          simp only
+          refine BD_cnsts h ?_
+          split <;> split <;> rfl
+        · exact BD_modflag h false
+
+theorem BD_init (cfg : Cfg) (sel : Bool) : BD (init cfg sel) := by
+  intro c lim hl; simp [init] at hl
+
+theorem run_BD (cfg : Cfg) (sel : Bool) (hist : List Op) (hnf : (run (init cfg sel) hist).failed = false) :
+    BD (run (init cfg sel) hist) :=
+  run_inv (Q := BD) (fun _ op h hn => BD_step op h hn) hist _ (BD_init cfg sel) hnf
+
 end SgVerif.C18
